@@ -3,6 +3,7 @@ package sim
 import (
 	"bytes"
 	"context"
+	"encoding/binary"
 	"fmt"
 	"io"
 
@@ -27,6 +28,40 @@ type c12 struct {
 func newC12() Scenario { return &c12{c02: c02{prop: "C12"}} }
 
 func (s *c12) Name() string { return "hostile-bytes" }
+
+// reframe replaces the uvarint length prefix of a framed message after its body was edited.
+func reframe(body []byte) []byte {
+	var pre [binary.MaxVarintLen64]byte
+	n := binary.PutUvarint(pre[:], uint64(len(body)))
+	return append(append([]byte(nil), pre[:n]...), body...)
+}
+
+// mutateID rewrites the byte string holding one of the message's request IDs to another
+// length, keeping the message otherwise well-formed CBOR with a correct frame.
+func mutateID(t *Tape, framed []byte, ids [][]byte) ([]byte, bool) {
+	_, n := binary.Uvarint(framed)
+	if n <= 0 || len(ids) == 0 {
+		return nil, false
+	}
+	body := framed[n:]
+	id := ids[t.Draw(len(ids))]
+	at := bytes.Index(body, id)
+	if at < 1 || body[at-1] != 0x50 {
+		return nil, false
+	}
+	k := []int{0, 1, 7, 15, 17, 23, 32}[t.Draw(7)]
+	var nid []byte
+	if k < 24 {
+		nid = []byte{byte(0x40 + k)}
+	} else {
+		nid = []byte{0x58, byte(k)}
+	}
+	for i := 0; i < k; i++ {
+		nid = append(nid, id[i%len(id)])
+	}
+	nb := append(append(append([]byte(nil), body[:at-1]...), nid...), body[at+16:]...)
+	return reframe(nb), true
+}
 
 func mutateBytes(t *Tape, b []byte) ([]byte, string) {
 	out := append([]byte(nil), b...)
@@ -100,6 +135,18 @@ func (s *c12) Build(w *World) {
 			continue
 		}
 		mut, kind := mutateBytes(t, buf.Bytes())
+		if t.Chance(200) {
+			var ids [][]byte
+			for _, rq := range msg.Requests() {
+				ids = append(ids, rq.ID().Bytes())
+			}
+			for _, rs := range msg.Responses() {
+				ids = append(ids, rs.RequestID().Bytes())
+			}
+			if m2, ok := mutateID(t, buf.Bytes(), ids); ok {
+				mut, kind = m2, "id-length"
+			}
+		}
 		_, derr := handler.FromNet(s.m.ID, bytes.NewReader(mut))
 		s.payload = append(s.payload, mut)
 		s.valid = append(s.valid, derr == nil)
